@@ -36,8 +36,27 @@ class _Break(Exception):
     pass
 
 
+class Yielded(Exception):
+    """Evaluation of a generator body reached a `yield` (the yielded expression is not evaluated)."""
+
+    def __init__(self, node, local):
+        self.node = node
+        self.local = local
+
+
 class _Continue(Exception):
     pass
+
+
+class TextSink:
+    """A model output file: records the text written to it (write / print(file=...)); nothing reaches the disk."""
+
+    def __init__(self):
+        self.parts = []
+
+    @property
+    def text(self):
+        return "".join(self.parts)
 
 
 class Rec:
@@ -141,6 +160,12 @@ class _Expr(SymEval):
 
     def e_Tuple(self, n):
         return tuple(self._display(n.elts))
+
+    def e_Set(self, n):
+        vals = self._display(n.elts)
+        if any(isinstance(v, (Sym, Rec, np.ndarray, list, dict)) for v in vals):
+            raise NotSymbolic("set display of non-constant values")
+        return set(vals)
 
     def e_Dict(self, n):
         out = {}
@@ -358,10 +383,30 @@ class _Expr(SymEval):
                     if base.dtype == object:
                         return _opaque("clip", base)
                     return base.clip(*args, **kw)
+            if isinstance(base, TextSink):
+                if f.attr == "write" and len(n.args) == 1:
+                    txt = self.eval(n.args[0])
+                    if not isinstance(txt, str):
+                        raise Raised("TypeError")
+                    base.parts.append(txt)
+                    return len(txt)
+                raise NotSymbolic(f"method {f.attr} on an output file")
             if isinstance(base, Rec):
                 return self.owner.call_method(base, f.attr, [self.eval(a) for a in n.args], {k.arg: self.eval(k.value) for k in n.keywords})
-            if isinstance(base, str) and f.attr in ("lower", "upper", "strip", "title", "capitalize", "startswith", "endswith", "replace", "split", "join", "rstrip", "lstrip"):
+            if isinstance(base, str) and f.attr in ("lower", "upper", "strip", "title", "capitalize", "startswith", "endswith", "replace", "split", "join", "rstrip", "lstrip", "index", "find", "count", "isdigit", "isalpha", "ljust", "rjust", "center", "zfill", "splitlines"):
                 return _prog_call(getattr(base, f.attr), *[self.eval(a) for a in n.args])
+            if isinstance(base, str) and f.attr == "format":
+                args = []
+                for a in n.args:
+                    if isinstance(a, ast.Starred):
+                        v_ = self.eval(a.value)
+                        args.extend(list(v_) if not isinstance(v_, np.ndarray) else [v_[i_] for i_ in range(v_.shape[0])])
+                    else:
+                        args.append(self.eval(a))
+                kw = {k.arg: self.eval(k.value) for k in n.keywords if k.arg is not None}
+                if any(isinstance(v, (Sym, Rec, np.ndarray)) for v in list(args) + list(kw.values())):
+                    raise NotSymbolic("str.format of a symbolic value")
+                return _prog_call(base.format, *args, **kw)
             if isinstance(base, _re.Pattern) and f.attr in ("search", "match", "fullmatch", "findall"):
                 args = [self.eval(a) for a in n.args]
                 if not all(isinstance(a, str) for a in args):
@@ -462,8 +507,28 @@ class _Expr(SymEval):
                         return self.eval(n.args[2])
                     raise Raised("AttributeError")
                 raise NotSymbolic(f"{f.id} on a non-instance")
+            if f.id == "print":
+                kw = {k.arg: self.eval(k.value) for k in n.keywords}
+                sink = kw.get("file")
+                if not isinstance(sink, TextSink):
+                    raise NotSymbolic("print without a model output file")
+                vals = [self.eval(a) for a in n.args]
+                if any(isinstance(v, (Sym, Rec)) or (isinstance(v, np.ndarray) and v.dtype == object) for v in vals):
+                    raise NotSymbolic("print of a symbolic value")
+                sink.parts.append(str(kw.get("sep", " ")).join(str(v) for v in vals) + str(kw.get("end", "\n")))
+                return None
             if f.id == "id" and len(n.args) == 1:
                 return id(self.eval(n.args[0]))
+            if f.id == "next" and len(n.args) == 1:
+                it_ = self.eval(n.args[0])
+                if isinstance(it_, Rec):
+                    return self.owner.call_method(it_, "__next__", [], {})
+                if hasattr(it_, "__next__") and not isinstance(it_, (Sym, np.ndarray)):
+                    try:
+                        return next(it_)
+                    except StopIteration:
+                        raise Raised("StopIteration") from None
+                raise NotSymbolic("next() of a non-iterator")
             if f.id == "bool" and len(n.args) == 1:
                 return self._truth(self.eval(n.args[0]))
             if f.id in ("int", "float") and n.args:
@@ -531,6 +596,9 @@ class AccessorEval:
         raise NotSymbolic(f"{(rec.cls or self.cls).name} has no field or property {name}")
 
     def set(self, rec: Rec, name, value):
+        if (rec.cls or self.cls) is None:  # a plain object (e.g. a function that gets attributes attached)
+            rec.fields[name] = value
+            return
         s = (rec.cls or self.cls).setters.get(name)
         if s is not None:
             self.run(s, rec, {s.posparams[1]: value})
@@ -614,7 +682,51 @@ class AccessorEval:
         if isinstance(st, ast.Expr):
             if isinstance(st.value, ast.Constant):
                 return
+            if isinstance(st.value, (ast.Yield, ast.YieldFrom)):
+                raise Yielded(st.value, local)
             self._eval(st.value, local)
+            return
+        if isinstance(st, ast.While):
+            n_iter = 0
+            broke = False
+            while _Expr._truth(self._eval(st.test, local)):
+                n_iter += 1
+                if n_iter > 200:
+                    raise NotSymbolic("while loop does not end within 200 iterations")
+                try:
+                    self._block(st.body, local)
+                except _Break:
+                    broke = True
+                    break
+                except _Continue:
+                    continue
+            if not broke:
+                self._block(st.orelse, local)
+            return
+        if isinstance(st, ast.Try):
+            try:
+                try:
+                    self._block(st.body, local)
+                except Raised as r:
+                    for h in st.handlers:
+                        names = []
+                        if h.type is None:
+                            names = ["BaseException"]
+                        else:
+                            for t_ in (h.type.elts if isinstance(h.type, ast.Tuple) else [h.type]):
+                                names.append(t_.id if isinstance(t_, ast.Name) else getattr(t_, "attr", "?"))
+                        cls_ = r.args[0]
+                        if cls_ in names or "BaseException" in names or ("Exception" in names and cls_ not in ("KeyboardInterrupt", "SystemExit", "GeneratorExit")):
+                            if h.name:
+                                local[h.name] = Rec(None, cls_name=cls_)
+                            self._block(h.body, local)
+                            break
+                    else:
+                        raise
+                else:
+                    self._block(st.orelse, local)
+            finally:
+                self._block(st.finalbody, local)
             return
         if isinstance(st, ast.Return):
             raise _Return(self._eval(st.value, local) if st.value is not None else None)
@@ -641,7 +753,27 @@ class AccessorEval:
             return
         if isinstance(st, ast.For):
             seq = self._eval(st.iter, local)
-            items = list(seq) if not isinstance(seq, np.ndarray) else [seq[i] for i in range(seq.shape[0])]
+            if isinstance(seq, Rec):
+                # an instance with __next__ (the model LineIterator): items are drawn one by one, so that a `break`
+                # leaves the rest in the iterator
+                owner = self
+
+                def _draw(rec=seq):
+                    k = 0
+                    while True:
+                        k += 1
+                        if k > 2000:
+                            raise NotSymbolic("iterator does not end within 2000 items")
+                        try:
+                            yield owner.call_method(rec, "__next__", [], {})
+                        except Raised as r_:
+                            if r_.args[0] == "StopIteration":
+                                return
+                            raise
+
+                items = _draw()
+            else:
+                items = list(seq) if not isinstance(seq, np.ndarray) else [seq[i] for i in range(seq.shape[0])]
             broke = False
             for item in items:
                 self._assign(st.target, item, local)
